@@ -43,8 +43,8 @@ def mc_jobs(ctx):
         jobs.append(("boot", {"DeclSet": "{1, 15}", "Ctx": '{"c1", "c2"}', "StartedSet": "{FALSE}", "MaxDefs": 2, "MaxSteps": 3,
                               "Acts": acts("boot", "reload", "fail", "define", "del", "call")}, inv, prop, None))
         # services of a module: imported at run time / at load time, importer reloaded, module file removed
-        jobs.append(("modules", {"DeclSet": "{2, 18}", "Ctx": '{"c1", "c2", "c4"}', "Name": '{"f"}', "Vias": '{"exec", "run"}', "MaxGen": 4,
-                                 "MaxSteps": 4, "Acts": acts("import", "fail", "reload", "close", "define", "del", "call", "unload")},
+        jobs.append(("modules", {"DeclSet": "{2, 18}", "Ctx": '{"c1", "c2", "c4"}', "Name": '{"f"}', "Vias": '{"exec", "run"}', "MaxGen": 3,
+                                 "MaxSteps": 3, "Acts": acts("import", "fail", "reload", "close", "define", "del", "call", "unload")},
                      inv, prop, None))
     jobs += [
         ("flag:service-handler-not-repointed", {"FlagSets": '{{"service-handler-not-repointed"}}', "DeclSet": "{1}", "MaxSteps": 3,
@@ -61,6 +61,9 @@ def mc_jobs(ctx):
         ("flag:dm-service-multi-arg-rejected", {"FlagSets": '{{"dm-service-multi-arg-rejected"}}', "DeclSet": "{11}", "MaxSteps": 1,
                                                 "Acts": acts("define")}, inv, prop, {"ActiveIffReferencedAndLoaded"}),
     ]
+    if q:       # quick tier: only the deviations still present in the code under test (every TLC run costs a JVM start);
+        # the configurations of the repaired ones (known_findings.jsonl: fixed) are checked in the thorough tier
+        jobs = [j for j in jobs if not j[0].startswith("flag:") or j[0] == "flag:service-handler-not-repointed"]
     for w in ("W_NoTwoDeclarers", "W_NoRefusal"):
         jobs.append((w, {"DeclSet": "{1}", "Ctx": '{"c1", "c2"}', "MaxSteps": 3, "Acts": acts("define", "del")}, [w], [], {w}))
     # round 3: a name spelled with an upper-case letter redeclared, then a load that fails after a @service
